@@ -418,13 +418,16 @@ class Dataset:
         """
         copy_rankings: List[Ranking] = copy.deepcopy(self.rankings)
         all_elements: Set[Element] = set(self._mapping_element_id.keys())
+        unified_rankings: List[Ranking] = []
 
         for ranking in copy_rankings:
             missing_elements: Set[Element] = all_elements - ranking.domain
             if missing_elements:
-                ranking.buckets.append(missing_elements)
+                # a new Ranking is built so that its positions and domain take the unifying bucket into account
+                ranking = Ranking(ranking.buckets + [missing_elements])
+            unified_rankings.append(ranking)
 
-        return copy_rankings
+        return unified_rankings
 
     def unified_dataset(self):
         """
